@@ -135,11 +135,11 @@ def catalogue():
                      [struct("W", "int a, string b, int c"), struct("N", "int a, string b")],
                      [S_const("G", "W[] ws, W w", {"ws": [{"a": 1, "b": "x", "c": 9}, {"a": 2, "b": "y", "c": 8}],
                                                    "w": {"a": 3, "b": "z", "c": 7}}),
-                      stage("U", "int[] as, N n", "int k", {"k": length("as")}),
+                      stage("U", "int[] av, N n", "int k", {"k": length("av")}),
                       S_echo("E", "N", "n", "m")],
                      [pipeline("TOP", "", "int k, N m, string[] bs",
                                [call("G"),
-                                call("U", binds={"as": ref("G", "ws", "a"), "n": ref("G", "w")}),
+                                call("U", binds={"av": ref("G", "ws", "a"), "n": ref("G", "w")}),
                                 call("E1", "E", binds={"n": ref("G", "w")})],
                                {"k": ref("U", "k"), "m": ref("E1", "m"), "bs": ref("G", "ws", "b")})],
                      "TOP", {}))
